@@ -152,6 +152,27 @@ def rand_axis(rng, k):
     return [x * L for x in v], "generic"
 
 
+def tilt_axis(rng, k):
+    """axis tilted from +-z by d, log-uniform over the whole double range 5e-324 .. 1e-1 (both poles, every
+    azimuth of the tilt incl. the coordinate azimuths, lengths 1e-6..1e6).  Products that underflow give an axis
+    exactly along +-z — a legitimate member."""
+    d = 10.0 ** rng.uniform(-323.3, -1.0)
+    if k % 7 == 0:
+        d = rng.choice([5e-324, 1e-323, 3e-320, 1e-310, 2.3e-308, 3e-162, 1e-162, 7e-160, 1e-155, 1.5e-154, 1e-153,
+                        1e-100, 1e-30, 1e-16, 1e-12, 1e-8])
+    ph = rng.uniform(0, 2 * math.pi)
+    if k % 5 == 0:
+        ph = rng.choice([0.0, math.pi / 2, math.pi, 3 * math.pi / 2, math.pi / 4])
+    sgn = -1.0 if k % 2 else 1.0
+    L = 10.0 ** rng.uniform(-6, 6) if k % 3 else 1.0
+    c, sn = math.cos(ph), math.sin(ph)
+    if abs(c) < 1e-15:
+        c = 0.0
+    if abs(sn) < 1e-15:
+        sn = 0.0
+    return [L * d * c, L * d * sn, L * sgn]
+
+
 def rand_theta(rng, k):
     c = k % 8
     if c == 0:
@@ -254,6 +275,26 @@ def generate(tier, seed, ctx):
         for j, ph in enumerate((ph1, ph2)):
             R.append("c16.sphax %s %s %s %s %s %s" % (hx(r), hx(th), hx(ph), cs_tokens(th), cs_tokens(ph), v3(ax)))
             groups.setdefault(("hand", g), {})[j] = R[-1]
+    # --- tilt family: axes at every distance 5e-324 .. 1e-1 from +-z (ded1f77: subnormal squares of the transverse part) ----
+    for k in range(2400 if thorough else 420):
+        r, th, ph = rand_r(rng, rng.randrange(4)), rand_theta(rng, rng.randrange(8)), rand_phi(rng, rng.randrange(9))
+        if k % 3 == 0:
+            th = rng.choice([math.pi / 2, 1.0, 2.0, 0.3])          # sin(theta) large: the transverse frame matters most
+        ax = tilt_axis(rng, k)
+        R.append("c16.sphax %s %s %s %s %s %s" % (hx(r), hx(th), hx(ph), cs_tokens(th), cs_tokens(ph), v3(ax)))
+    R.append("c16.sphax %s %s %s %s %s %s" % (hx(2.0), hx(math.pi / 2), hx(0.3), cs_tokens(math.pi / 2), cs_tokens(0.3), v3([3e-162, 0.0, 1.0])))
+    for g in range(240 if thorough else 40):
+        r = rand_r(rng, g)
+        th = rng.uniform(0.05, math.pi - 0.05)
+        ph1 = rng.uniform(0, 2 * math.pi)
+        ph2 = ph1 + rng.choice([-1.0, 1.0]) * rng.uniform(0.1, 3.0)
+        ax = tilt_axis(rng, g)
+        for j, ph in enumerate((ph1, ph2)):
+            R.append("c16.sphax %s %s %s %s %s %s" % (hx(r), hx(th), hx(ph), cs_tokens(th), cs_tokens(ph), v3(ax)))
+            groups.setdefault(("hand", 100000 + g), {})[j] = R[-1]
+    for k in range(1200 if thorough else 200):
+        a = rand_angle(rng, rng.randrange(8))
+        R.append("c16.rot3 %s %s %s" % (hx(a), cs_tokens(a), v3(tilt_axis(rng, k))))
     # --- Angle -----------------------------------------------------------------------------------------
     for k in range(600 if thorough else 150):
         n = 3 if k % 3 else rng.randint(1, 6)
@@ -446,9 +487,27 @@ def compare(rq, impl, model, ctx):
                 out.append(fail("prop", "Spherical_Coordinates(axis): polar angle from the axis is not theta (|v x e| != r sin theta)",
                                 "|v x e|=%s r sin=%s theta=%r" % (mp.nstr(pl, 20), mp.nstr(rm * abs(st), 20), th)))
         vm = [fr(t) for t in tm[:3]]
-        if not out and not all(close(x, m, abs(Fraction(r)), K_SPH) for x, m in zip(v, vm)):
-            out.append(fail("corr", "sphax (%s branch) differs from the model" % branch, "%r vs %s" % (v, [float(m) for m in vm])))
-        _track(ctx, "sphax", [abs(Fraction(x) - m) for x, m in zip(v, vm)], abs(Fraction(r)))
+        # transverse length of the unit axis; below the normal range (2^-1022) ev_x, ev_y are rounded to multiples of
+        # 2^-1074 (or to 0: then the explicit +-z branch runs), which turns the azimuth origin of the frame by up to
+        # 2^-1074/|ev_t| — the property (norm, polar angle, handedness) does not fix that origin, the exact model does
+        tcl = "exact" if not (ax[0] or ax[1]) else "normal"
+        if any(ax) and (ax[0] or ax[1]):
+            e = unit([mpf(x) for x in ax])
+            et = mp.sqrt(e[0] * e[0] + e[1] * e[1])
+            if et < mpf(2) ** -1000:
+                tcl = "subnormal"
+            elif et < mpf(10) ** -150:
+                tcl = "squares-underflow"
+            elif et < mpf(10) ** -8:
+                tcl = "tiny"
+        bump(ctx, "sphax.tilt." + tcl)
+        if tcl == "subnormal":
+            if not out:
+                ctx["excused"] += 1
+        else:
+            if not out and not all(close(x, m, abs(Fraction(r)), K_SPH) for x, m in zip(v, vm)):
+                out.append(fail("corr", "sphax (%s branch) differs from the model" % branch, "%r vs %s" % (v, [float(m) for m in vm])))
+            _track(ctx, "sphax", [abs(Fraction(x) - m) for x, m in zip(v, vm)], abs(Fraction(r)))
     elif op == "c16.angle":
         got = fl(ti[0])
         m = M(fr(tm[0]))
